@@ -24,6 +24,7 @@ def genTables : Tables :=
     sdlEmptyTokenSpins := Gen.sdlEmptyTokenSpins,
     exeVarTypeOptional := Gen.exeVarTypeOptional,
     opFallbackAnyName := Gen.opFallbackAnyName,
-    fieldPosAfterLookahead := Gen.fieldPosAfterLookahead }
+    fieldPosAfterLookahead := Gen.fieldPosAfterLookahead,
+    leafErrNulls := Gen.leafErrNulls }
 
 def main (args : List String) : IO Unit := run genTables args
